@@ -188,6 +188,30 @@ func init() {
 				n := 2*(4<<20+65536) - 100
 				emit(rtCase{Space: "codec", P: Params{"BWT", "NONE", 4<<20 + 65536, 2, 0, int64(n), false, false}, Shape: "text", Len: n, DecJobs: dj})
 			}
+			// block sizes that are not powers of two, and last blocks whose length sits on the boundaries of
+			// the 1/2/3-byte block length field (255/256, 65535/65536)
+			for _, cd := range [][2]string{{"NONE", "NONE"}, {"LZ", "HUFFMAN"}} {
+				for _, bsz := range []uint{1040, 100000} {
+					for _, tail := range []int{0, 1, 15, 16, 17, 254, 255, 256, 257, 65534, 65535, 65536, 65537} {
+						if tail >= int(bsz) {
+							continue
+						}
+						for _, k := range []int{0, 1} {
+							n := k*int(bsz) + tail
+							if n == 0 {
+								continue
+							}
+							for _, hl := range []bool{false, true} {
+								ck := uint(0)
+								if hl {
+									ck = 64
+								}
+								emit(rtCase{Space: "codec", P: Params{cd[0], cd[1], bsz, 2, ck, int64(n), hl, false}, Shape: "text", Len: n, DecJobs: 3})
+							}
+						}
+					}
+				}
+			}
 			// skipBlocks option: incompressible / already compressed blocks are stored raw
 			for _, cd := range [][2]string{{"NONE", "NONE"}, {"LZ", "HUFFMAN"}, {"TEXT+UTF+BWT+RANK+ZRLT", "ANS0"}} {
 				for _, sh := range []string{"zipmagic-text", "zipmagic", "random", "text", "mixed"} {
